@@ -27,6 +27,7 @@ BATCHING = {  # name -> (batch size, epochs, steps, drop_remainder, seed)
     'e1d': (2, 1, None, True, 3),
 }
 KINDS = ('fedprox0', 'fedprox', 'hyp1', 'mimelite', 'apfl', 'mime')
+LAMS = (0.0, 0.5)     # weight of the optional L2 regulariser lam/2*|w|^2
 KIND_CODE = {'sgd': 0, 'momentum': 1, 'nesterov': 2}
 HYP_KEY = 'C12/hyp-single/empty-cohort-stateful-server-opt'
 
@@ -53,15 +54,21 @@ def bits(path):
 
 class C12(core.Property):
   ID = 'C12'
-  RULE = ('histories of 1..3 rounds over cohorts of 1..4 clients with sizes 0..7, linear-regression loss (with a '
-          'key-dependent term where the reduction must hold sample-wise), 4 optimizer pairs x 5 batching hparams; six '
+  RULE = ('histories of 1..3 rounds over cohorts of 1..4 clients with sizes 0..7 (fresh clients or a fixed population with '
+          'repeated participation; always the latter for APFL), linear-regression loss (with a key-dependent term where the '
+          'reduction must hold sample-wise, and an optional L2 regulariser passed through each algorithm\'s own regularizer / '
+          'grad_fn argument), every algorithm constructed under the jit, debug and pmap (1..4 devices) for_each_client '
+          'backends with cohorts in random or smallest-first order, 4 optimizer pairs x 5 batching hparams; six '
           'reductions: FedProx mu=0 / HypCluster K=1 / MimeLite sgd / APFL global vs the real FedAvg, FedProx mu>0 vs the '
           'FedAvg definition on the augmented loss, Mime one-step vs the full-batch step; non-trivial = parameters move by '
           '> 100x tolerance, >= 2 clients with different positive sizes in some round (and for mu>0 the proximal term '
           'changes the result by > 100x tolerance); distinct by case digest')
   TRUSTED = ['autodiff (jax.grad of the fixture loss and of the proximal term), optax optimizers, jax.random are externals',
              'the batches each client sees are recorded from the real shuffle_repeat_batch / padded_batch (C03/C04)']
-  ASSUMPTIONS = ['HypCluster and APFL equal FedAvg sample-wise only for a loss that ignores its key (they train with a '
+  ASSUMPTIONS = ['the FedAvg side of a comparison runs on the default jit backend (backend independence of FedAvg is C01/C02)',
+                 'Mime one-step with a key-dependent loss: the reference full-batch gradient uses the documented key chain '
+                 'of the gradient pass (rng, use = split(rng) per batch from the client key)',
+                 'HypCluster and APFL equal FedAvg sample-wise only for a loss that ignores its key (they train with a '
                  'different sub-key); they are compared with FedAvg on key-free losses and with their models on keyed ones',
                  'a cohort is non-empty (Mime/MimeLite raise TypeError on an empty cohort; the model answers err)']
   QUICK_BUDGET_S = 170
@@ -72,7 +79,9 @@ class C12(core.Property):
     import jax.numpy as jnp
     from fedjax.algorithms import fed_avg, fed_prox, hyp_cluster, mime, mime_lite, apfl
     from fedjax.core import client_datasets, optimizers, models
-    self.jax, self.jnp = jax, jnp
+    from fedjax.core import for_each_client as fec
+    self.jax, self.jnp, self.fec = jax, jnp, fec
+    self.ndev = len(jax.local_devices())
     self.mods = dict(fed_avg=fed_avg, fed_prox=fed_prox, hyp_cluster=hyp_cluster, mime=mime,
                      mime_lite=mime_lite, apfl=apfl)
     self.cds, self.optimizers, self.models = client_datasets, optimizers, models
@@ -89,7 +98,15 @@ class C12(core.Property):
       return pel
 
     self.pel = {False: make_pel(False), True: make_pel(True)}
-    self.grad_fn = {k: models.grad(v) for k, v in self.pel.items()}
+
+    def make_reg(lam):
+      if not lam:
+        return None
+      return lambda params: 0.5 * lam * jnp.sum(jnp.square(params['w']))
+
+    self.reg = {lam: make_reg(lam) for lam in LAMS}
+    # grad_fn of "mean example loss + regulariser" for the algorithms that take a grad_fn (FedAvg, APFL)
+    self.grad_fn = {(k, lam): models.grad(v, self.reg[lam]) for k, v in self.pel.items() for lam in LAMS}
 
     class RecDataset(client_datasets.ClientDataset):
       """Records the batches the algorithm actually consumed (training and padded passes)."""
@@ -128,56 +145,92 @@ class C12(core.Property):
     return self.cds.ShuffleRepeatBatchHParams(batch_size=bs, num_epochs=ep, num_steps=st,
                                               drop_remainder=drop, seed=seed)
 
+  def backend_of(self, kind, case):
+    """The for_each_client backend the algorithm is CONSTRUCTED under.  The FedAvg of the comparison always
+    runs on the default jit backend (its backend independence is C01/C02)."""
+    b = case.get('backend', 'jit')
+    if kind == 'fedavg' or b == 'jit':
+      return 'jit', 'jit'
+    if b == 'debug':
+      return 'debug', 'debug'
+    D = max(1, min(int(case.get('D', 1)), self.ndev))
+    return ('pmap', D), self.fec.ForEachClientPmapBackend(self.jax.local_devices()[:D])
+
   def alg(self, kind, case):
-    keyed = case['keyed']
+    keyed, lam = case['keyed'], case.get('lam', 0.0)
     copt, sopt = case['copt'], case['sopt']
-    key = (kind, keyed, tuple(copt), tuple(sopt), case['batching'], case.get('mu'), case.get('lr'))
+    bkey, backend = self.backend_of(kind, case)
+    key = (kind, keyed, lam, bkey, tuple(copt), tuple(sopt), case['batching'], case.get('mu'), case.get('lr'))
     if key in self._algs:
       return self._algs[key]
     m, hp = self.mods, self.hparams(case['batching'])
     php = self.cds.PaddedBatchHParams(batch_size=2)
-    if kind == 'fedavg':
-      a = m['fed_avg'].federated_averaging(self.grad_fn[keyed], self.mk_opt(copt), self.mk_opt(sopt), hp)
-    elif kind in ('fedprox0', 'fedprox'):
-      a = m['fed_prox'].fed_prox(self.pel[keyed], self.mk_opt(copt), self.mk_opt(sopt), hp, case['mu'])
-    elif kind == 'hyp1':
-      a = m['hyp_cluster'].hyp_cluster(self.pel[keyed], self.mk_opt(copt), self.mk_opt(sopt), php, hp)
-    elif kind == 'mimelite':
-      a = m['mime_lite'].mime_lite(self.pel[keyed], self.mk_opt(copt), hp, php, case['lr'])
-    elif kind == 'mime':
-      a = m['mime'].mime(self.pel[keyed], self.mk_opt(copt), hp, php, case['lr'])
-    elif kind == 'apfl':
-      a = m['apfl'].adaptive_personalized_federated_learning(self.grad_fn[keyed], self.mk_opt(copt),
-                                                              self.mk_opt(sopt), hp, 0.5)
-    else:
-      raise ValueError(kind)
+    reg = self.reg[lam]
+    with self.fec.for_each_client_backend(backend):
+      if kind == 'fedavg':
+        a = m['fed_avg'].federated_averaging(self.grad_fn[(keyed, lam)], self.mk_opt(copt), self.mk_opt(sopt), hp)
+      elif kind in ('fedprox0', 'fedprox'):
+        a = m['fed_prox'].fed_prox(self.pel[keyed], self.mk_opt(copt), self.mk_opt(sopt), hp, case['mu'])
+      elif kind == 'hyp1':
+        a = m['hyp_cluster'].hyp_cluster(self.pel[keyed], self.mk_opt(copt), self.mk_opt(sopt), php, hp,
+                                         regularizer=reg)
+      elif kind == 'mimelite':
+        a = m['mime_lite'].mime_lite(self.pel[keyed], self.mk_opt(copt), hp, php, case['lr'], regularizer=reg)
+      elif kind == 'mime':
+        a = m['mime'].mime(self.pel[keyed], self.mk_opt(copt), hp, php, case['lr'], regularizer=reg)
+      elif kind == 'apfl':
+        a = m['apfl'].adaptive_personalized_federated_learning(self.grad_fn[(keyed, lam)], self.mk_opt(copt),
+                                                                self.mk_opt(sopt), hp, 0.5)
+      else:
+        raise ValueError(kind)
     self._algs[key] = a
     return a
 
   # ------------------------------------------------------------------ generation
   def gen_cases(self, rng, tier):
-    n = 120 if tier == "quick" else 2400
+    n = 102 if tier == "quick" else 2400
     yield {'kind': 'mime_empty', 'which': 'mime'}
     yield {'kind': 'mime_empty', 'which': 'mimelite'}
     for i in range(n):
       kind = KINDS[i % len(KINDS)]
       d = 2
+      def new_client(c, empty=False):
+        n_ex = 0 if empty else rng.choice([0, 1, 2, 3, 4, 5, 7])
+        return {'id': rng.randrange(0, 50) * 10 + c,
+                'x': [[rng.choice([-1, 0, 1, 2]) for _ in range(d)] for _ in range(n_ex)],
+                'y': [rng.choice([-2, -1, 0, 1, 3]) for _ in range(n_ex)]}
+
       rounds = []
-      for r in range(rng.choice([1, 2, 2, 3])):
-        cohort = []
+      # a fixed small population with repeated participation (always for APFL, whose per-client state only matters
+      # from a client's second participation on), or fresh clients every round
+      population = [new_client(c) for c in range(4)] if (kind == 'apfl' or rng.random() < 0.4) else None
+      for r in range(rng.choice([2, 3, 3]) if kind == 'apfl' else rng.choice([1, 2, 2, 3])):
         all_empty = rng.random() < (0.2 if kind == 'hyp1' else 0.06)
-        for c in range(rng.choice([1, 2, 3, 3, 4])):
-          n_ex = 0 if all_empty else rng.choice([0, 1, 2, 3, 4, 5, 7])
-          xs = [[rng.choice([-1, 0, 1, 2]) for _ in range(d)] for _ in range(n_ex)]
-          ys = [rng.choice([-2, -1, 0, 1, 3]) for _ in range(n_ex)]
-          cohort.append({'id': rng.randrange(0, 50) * 10 + c, 'x': xs, 'y': ys})
+        k = rng.choice([1, 2, 3, 3, 4])
+        if all_empty:
+          cohort = [new_client(c, empty=True) for c in range(k)]
+        elif population is not None:
+          cohort = [dict(population[j]) for j in rng.sample(range(4), k)]
+        else:
+          cohort = [new_client(c) for c in range(k)]
         rounds.append(cohort)
       oname = rng.choice(sorted(OPTS))
       copt, sopt = OPTS[oname]
       batching = rng.choice(['e1', 'e2', 's3', 'e1d'])
       case = {'kind': kind, 'd': d, 'w0': [rng.choice([-1, 0, 1, 2]) for _ in range(d)], 'copt': list(copt),
               'sopt': list(sopt), 'batching': batching, 'rounds': rounds, 'key_seed': rng.randrange(1000),
-              'keyed': rng.random() < 0.5}
+              'keyed': rng.random() < 0.5,
+              # the optional regulariser (FedProx takes none), the backend the algorithm is built under, device count
+              'lam': 0.0 if kind in ('fedprox0', 'fedprox') or rng.random() < 0.55 else 0.5,
+              # every kind meets every backend: the pattern advances once per cycle through the kinds
+              'backend': ('jit', 'pmap', 'debug', 'jit', 'pmap', 'jit')[(i // len(KINDS)) % 6],
+              'D': rng.choice([1, 2, 3, 4])}
+      if case['backend'] == 'pmap':
+        # the pmap backend re-orders clients by decreasing number of batches: give it cohorts whose clients differ in
+        # their number of batches (epoch-based batching) and, half of the time, list them smallest first
+        case['batching'] = rng.choice(['e1', 'e2', 'e1d'])
+        if rng.random() < 0.5:
+          case['rounds'] = [sorted(co, key=lambda c: len(c['y'])) for co in rounds]
       if kind == 'fedprox0':
         case['mu'] = 0.0
       elif kind == 'fedprox':
@@ -216,6 +269,14 @@ class C12(core.Property):
           yield {**case, 'rounds': rs[:ri] + [cohort[:ci] + [c2] + cohort[ci + 1:]] + rs[ri + 1:]}
     if case['keyed']:
       yield {**case, 'keyed': False}
+    if case.get('lam'):
+      yield {**case, 'lam': 0.0}
+    if case.get('backend', 'jit') != 'jit':
+      yield {**case, 'backend': 'jit'}
+    elif False:
+      pass
+    if case.get('backend') == 'pmap' and case.get('D', 1) > 1:
+      yield {**case, 'D': 1}
 
   # ------------------------------------------------------------------ running the real code
   def _clients(self, case, ri):
@@ -349,16 +410,26 @@ class C12(core.Property):
       out.append(w.copy())
     return out
 
-  def ref_mime_one_step(self, case):
-    """p - lr_server * lr * G, G = gradient of the mean loss over all examples of the cohort (key-free loss)."""
+  def ref_mime_one_step(self, case, logs):
+    """p - lr_server * lr * G with G the gradient, at the server params, of
+    `mean loss over all examples of the cohort + regulariser` — the regulariser's gradient exactly once.  For the
+    key-dependent loss the full-batch pass adds, per gradient batch b of client j, the noise of its key (documented
+    chain `rng, use = split(rng)` from the client key) with weight |b|/N."""
+    d = case['d']
+    lam = case.get('lam', 0.0)
     w = np.asarray(case['w0'], np.float64)
     out = []
-    for cohort in case['rounds']:
+    for ri, cohort in enumerate(case['rounds']):
       xs = [r for c in cohort for r in c['x']]
       ys = [v for c in cohort for v in c['y']]
       if xs:
         x, y = np.asarray(xs, np.float64), np.asarray(ys, np.float64)
-        G = np.mean((x @ w - y)[:, None] * x, axis=0)
+        G = np.mean((x @ w - y)[:, None] * x, axis=0) + lam * w
+        if case['keyed']:
+          for j, c in enumerate(cohort):
+            pads = logs[ri]['pad'][j]
+            for (_, nz), b in zip(self.chain_binary(logs[ri]['keys'][j], [], len(pads), d), pads):
+              G = G + (len(self.rows(b)) / len(xs)) * nz
       else:
         G = np.zeros_like(w)
       w = w - case['lr'] * case['copt'][1] * G
@@ -394,7 +465,8 @@ class C12(core.Property):
       return self._eval_empty(case, ctx)
     d = case['d']
     tags = [f'kind={kind}', f'keyed={case["keyed"]}', f'copt={case["copt"][0]}', f'sopt={case["sopt"][0]}',
-            f'batching={case["batching"]}', f'rounds={len(case["rounds"])}']
+            f'batching={case["batching"]}', f'rounds={len(case["rounds"])}', f'backend={case.get("backend", "jit")}',
+            f'regulariser={bool(case.get("lam"))}']
     totals = [sum(len(c['y']) for c in co) for co in case['rounds']]
     tags.append(f'all_empty_round={any(t == 0 for t in totals)}')
     try:
@@ -431,8 +503,8 @@ class C12(core.Property):
     elif kind == 'fedprox':
       reference, ref_name = self.ref_fedavg(case, logs, mu=case['mu']), 'FedAvg definition on the augmented loss'
     elif kind == 'mime':
-      if case['batching'] == 's1' and case['copt'][0] == 'sgd' and not case['keyed']:
-        reference, ref_name = self.ref_mime_one_step(case), 'one full-batch gradient step'
+      if case['batching'] == 's1' and case['copt'][0] == 'sgd':
+        reference, ref_name = self.ref_mime_one_step(case, logs), 'one full-batch gradient step'
       else:
         oracle_applies = False
     if reference is not None and not problems:
@@ -464,7 +536,7 @@ class C12(core.Property):
       oc = [KIND_CODE[case['copt'][0]], case['copt'][1], case['copt'][2]]
       os_ = [KIND_CODE[case['sopt'][0]], case['sopt'][1], case['sopt'][2]]
       w0 = [float(v) for v in case['w0']]
-      keyed = case['keyed']
+      keyed = [case['keyed'], case.get('lam', 0.0)]      # loss spec of the model: key-dependent term, L2 weight
       if kind in ('fedprox0', 'fedprox'):
         ans = ctx.drv.ask1('c12.fedprox', keyed, case['mu'], oc, os_, w0, mc)
       elif kind == 'hyp1':
